@@ -244,3 +244,28 @@ func VerifH_C07_cancelFromFilter() {
 	vQuiesce()
 	vAssert(vGoroutines() == 0, "goroutines-terminated")
 }
+
+// VerifH_C07_stopNearEnd: Close after k objects on short files (the end-of-file
+// marker is already in the pipeline): Close returns, goroutines end, Scan stays false.
+func VerifH_C07_stopNearEnd() {
+	procs := vRange("procs", 1, vParam("maxProcs", 2))
+	nb := vRange("blocks", 1, vParam("maxBlocks", 3))
+	c := &c09File{f: &mFile{hasHeader: true, header: simpleHeader()}}
+	for b := 0; b < nb; b++ {
+		m := simpleBlock(1)
+		c.f.blocks = append(c.f.blocks, m)
+		c.want = append(c.want, m.expected()...)
+	}
+	c.f.build()
+	sc := New(context.Background(), &vReader{data: c.f.data}, procs)
+	k := vRange("scansBeforeStop", 0, nb)
+	for i := 0; i < k; i++ {
+		vAssert(sc.Scan(), "scan-before-stop")
+	}
+	vQuiesce() // let the pipeline run as far ahead as it can
+	vAssert(sc.Close() == nil, "close-returns")
+	vReach("closed")
+	vAssert(!sc.Scan(), "scan-false-after-close")
+	vQuiesce()
+	vAssert(vGoroutines() == 0, "goroutines-terminated")
+}
